@@ -75,6 +75,9 @@ def check(run, prog):
                 bm = [t for t in ev.trace if t[0] == "broadcast-mismatch"]
                 ck.same("R3", fi.where, "broadcast axes " + tag, "weights and mixer are aligned with the converted axis", not bm, found=str(bm)[:160],
                         nontrivial=True)
+                prec = [t for t in ev.trace if t[0] in ("exp-dtype", "precision-cast")]
+                ck.same("R2", fi.where, "mixer precision " + tag, "the mixer phase n*pi/2 is formed and exponentiated in double precision whatever the data's precision "
+                        "(a single-precision ramp is off by ~1e-7*n radians: 7e-3 at n = 65536)", not prec, found=str(prec)[:160], nontrivial=True)
                 od = ev.last_frame.env.get("out_dtype")
                 rd = out.dtype
                 ck.same("R3", fi.where, "dtype rule " + tag, "complex64 for float32 input, complex128 otherwise",
